@@ -1282,6 +1282,16 @@ impl Traceable for JsObject {
                 if let Some(env) = &state.current_env {
                     visitor(env.copy_ref());
                 }
+                // Trace the environments of the block scopes open at the yield point
+                for env in &state.saved_env_stack {
+                    visitor(env.copy_ref());
+                }
+                // Trace the value of a return/throw parked by try/finally at the yield point
+                if let Some(pending) = &state.saved_pending_completion
+                    && let Some(JsValue::Object(obj)) = pending.value()
+                {
+                    visitor(obj.copy_ref());
+                }
                 // Trace delegated iterator for yield*
                 if let Some((iter_obj, next_method)) = &state.delegated_iterator {
                     visitor(iter_obj.copy_ref());
@@ -2901,6 +2911,10 @@ pub struct BytecodeGeneratorState {
     pub saved_call_stack: Vec<crate::interpreter::bytecode_vm::CallFrame>,
     /// Saved try stack (for resumption)
     pub saved_try_stack: Vec<crate::interpreter::bytecode_vm::TryHandler>,
+    /// Environments to restore when the block scopes that were open at the yield are left
+    pub saved_env_stack: Vec<JsObjectRef>,
+    /// Return/throw parked by an enclosing try/finally at the yield (`finally { yield }`)
+    pub saved_pending_completion: Option<crate::interpreter::bytecode_vm::PendingCompletion>,
     /// Register to store the result of yield
     pub yield_result_register: Option<u8>,
     /// The function environment (created on first call, reused on subsequent calls)
